@@ -65,14 +65,14 @@ func (c *Ctx) panicSites(fns []*ssa.Function) []panicSite {
 
 // tabled panics of the run path: function|message -> reason it cannot fire (or "CHECK:<name>" when discharged by computation)
 var c07PanicTable = map[string]string{
-	"(*plugin.runningStep).markStageFailures|unknown StageID":   "CHECK:switch-args",
-	"(*foreach.runningStep).markStageFailures|unknown StageID ": "CHECK:switch-args",
-	"(*workflow.loopState).notifySteps|failed to get node %s (%w)":                                         "the id was returned by PopReadyNodes of the same DAG under the run lock a few instructions earlier; nodes are never removed from a run's DAG (C10.R3: no Remove/AddNode in the run path)",
-	"(*workflow.loopState).notifySteps|error occurred while resolving workflow OR group node (%s)":        "ResolveNode fails only for an already-resolved node; a node is handed out by PopReadyNodes once, and group nodes are resolved nowhere else (C01.R5 lists all resolve sites)",
-	"(*workflow.loopState).notifySteps|Step or stage ID missing":                                          "CHECK:stage-items-have-ids",
-	"(*workflow.loopState).notifySteps|unhandled case for type %s":                                        "CHECK:data-bearing-kinds",
-	"(*workflow.loopState).terminateAllSteps|failed to close step %s (%w)":                                "CHECK:forceclose-cannot-fail",
-	"(*workflow.loopState).markOutputsUnresolvable|error while marking node %s in DAG as unresolvable (%s)": "ResolveNode(Unresolvable) fails only on an already resolved node, i.e. a provider reporting one stage output both produced and impossible; excluded by the life-story rules C12.R3",
+	"(*plugin.runningStep).markStageFailures|unknown StageID":                                                 "CHECK:switch-args",
+	"(*foreach.runningStep).markStageFailures|unknown StageID ":                                               "CHECK:switch-args",
+	"(*workflow.loopState).notifySteps|failed to get node %s (%w)":                                            "the id was returned by PopReadyNodes of the same DAG under the run lock a few instructions earlier; nodes are never removed from a run's DAG (C10.R3: no Remove/AddNode in the run path)",
+	"(*workflow.loopState).notifySteps|error occurred while resolving workflow OR group node (%s)":            "ResolveNode fails only for an already-resolved node; a node is handed out by PopReadyNodes once, and group nodes are resolved nowhere else (C01.R5 lists all resolve sites)",
+	"(*workflow.loopState).notifySteps|Step or stage ID missing":                                              "CHECK:stage-items-have-ids",
+	"(*workflow.loopState).notifySteps|unhandled case for type %s":                                            "CHECK:data-bearing-kinds",
+	"(*workflow.loopState).terminateAllSteps|failed to close step %s (%w)":                                    "CHECK:forceclose-cannot-fail",
+	"(*workflow.loopState).markOutputsUnresolvable|error while marking node %s in DAG as unresolvable (%s)":   "ResolveNode(Unresolvable) fails only on an already resolved node, i.e. a provider reporting one stage output both produced and impossible; excluded by the life-story rules C12.R3",
 	"(*workflow.loopState).markStageNodeUnresolvable|error while marking node %s in DAG as unresolvable (%s)": "ResolveNode(Unresolvable) fails only on an already resolved node, i.e. a provider reporting one stage both finished and impossible; excluded by the life-story rules C12.R3",
 }
 
@@ -205,7 +205,7 @@ func (c *Ctx) checkStageItemsHaveIDs() (bool, string) {
 		}
 		// group stores by base Alloc
 		type lit struct {
-			kind          string
+			kind              string
 			hasStep, hasStage bool
 		}
 		lits := map[ssa.Value]*lit{}
@@ -333,16 +333,16 @@ func (c *Ctx) checkDataBearingKinds(notify *ssa.Function) (bool, string) {
 
 // table of unchecked assertions in the run path: function|asserted type|origin -> reason
 var c07AssertTable = map[string]string{
-	"(*foreach.runningStep).ProvideStageInput|int64|result#0 of (*go.flow.arcalot.io/pluginsdk/schema.PropertySchema).Unserialize": "CHECK:int-schema",
-	"(*plugin.runningStep).provideStartingInput|int64|result#0 of (*go.flow.arcalot.io/pluginsdk/schema.PropertySchema).Unserialize": "CHECK:int-schema",
-	"(*plugin.runnableStep).Start|string|lookup in param input": "the run data was unserialized against RunSchema() (a string property `step`) by getRunData during Prepare; Execute passes that stored value unchanged",
-	"(*workflow.executableWorkflow).Execute|map[string]any|map element[steps] of field data":                                      "CHECK:data-literal",
-	"(*workflow.executableWorkflow).Execute|map[string]any|map element of assertion on map element[steps] of field data":          "CHECK:data-literal",
-	"(*workflow.loopState).onStageComplete|map[string]any|map element[steps] of field data":                                       "CHECK:data-literal",
-	"(*workflow.loopState).onStageComplete|map[string]any|map element of assertion on map element[steps] of field data":           "CHECK:data-literal",
+	"(*foreach.runningStep).ProvideStageInput|int64|result#0 of (*go.flow.arcalot.io/pluginsdk/schema.PropertySchema).Unserialize":                  "CHECK:int-schema",
+	"(*plugin.runningStep).provideStartingInput|int64|result#0 of (*go.flow.arcalot.io/pluginsdk/schema.PropertySchema).Unserialize":                "CHECK:int-schema",
+	"(*plugin.runnableStep).Start|string|lookup in param input":                                                                                     "the run data was unserialized against RunSchema() (a string property `step`) by getRunData during Prepare; Execute passes that stored value unchanged",
+	"(*workflow.executableWorkflow).Execute|map[string]any|map element[steps] of field data":                                                        "CHECK:data-literal",
+	"(*workflow.executableWorkflow).Execute|map[string]any|map element of assertion on map element[steps] of field data":                            "CHECK:data-literal",
+	"(*workflow.loopState).onStageComplete|map[string]any|map element[steps] of field data":                                                         "CHECK:data-literal",
+	"(*workflow.loopState).onStageComplete|map[string]any|map element of assertion on map element[steps] of field data":                             "CHECK:data-literal",
 	"(*workflow.loopState).onStageComplete|map[string]any|map element of assertion on map element of assertion on map element[steps] of field data": "CHECK:data-literal",
-	"(*workflow.loopState).notifySteps|map[any]any|result#0 of (*go.flow.arcalot.io/engine/workflow.loopState).resolveExpressions": "CHECK:stage-data-is-map",
-	"(*workflow.loopState).notifySteps|string|range element": "keys of the stage data map are the InputFields names (strings) written by connectStepDependencies; the assertion is also dominated by DataSchema.Unserialize of the same map, which rejects non-string keys",
+	"(*workflow.loopState).notifySteps|map[any]any|result#0 of (*go.flow.arcalot.io/engine/workflow.loopState).resolveExpressions":                  "CHECK:stage-data-is-map",
+	"(*workflow.loopState).notifySteps|string|range element":                                                                                        "keys of the stage data map are the InputFields names (strings) written by connectStepDependencies; the assertion is also dominated by DataSchema.Unserialize of the same map, which rejects non-string keys",
 }
 
 // C07.R2 no unchecked type assertion in the run path outside the table.
